@@ -122,6 +122,14 @@ namespace ValueFlow
         if ((tok->isNumber() && MathLib::isInt(tok->str())) || (tok->tokType() == Token::eChar)) {
             try {
                 MathLib::bigint signedValue = MathLib::toBigNumber(tok);
+                // simplecpp::characterLiteralToLL evaluates an ordinary character literal with the char of the host:
+                // use the signedness of the analysed platform instead
+                if (tok->tokType() == Token::eChar && tok->isCChar()) {
+                    if (settings.platform.defaultSign == 'u' && signedValue < 0)
+                        signedValue += settings.platform.unsignedCharMax() + 1;
+                    else if (settings.platform.defaultSign == 's' && signedValue > settings.platform.signedCharMax())
+                        signedValue -= settings.platform.unsignedCharMax() + 1;
+                }
                 const ValueType* vt = tok->valueType();
                 if (vt && vt->sign == ValueType::UNSIGNED && signedValue < 0
                     && vt->getSizeOf(settings, ValueType::Accuracy::ExactOrZero, ValueType::SizeOf::Pointer)
